@@ -119,10 +119,21 @@ def generate_defs(repo, consts_values):
     out += "def spake_I : ℤ := %s\n\n" % lit(consts_values["I"])
     consts = {"Q": "(Q : ℤ)", "d": "spake_d", "I": "spake_I"}
     errors = {}
+
+    def global_int(name):
+        # other module-level integer constants (e.g. a hoisted 2*d): their real value, from the real module
+        if name in m.assigns:
+            from .repo import oracle, Oracle
+            r = oracle().req(op="global", module="spake2.ed25519_basic", name=name)
+            if r.get("ok"):
+                v = Oracle.dec(r["value"])
+                if isinstance(v, int) and not isinstance(v, bool):
+                    return v
+        return None
     for fn, tp, rt in GEN_FUNCS:
         try:
             node = m.functions[fn].node
-            p, l, r = leangen.function_to_lean(node, consts, tp)
+            p, l, r = leangen.function_to_lean(node, consts, tp, module=m, global_int=global_int)
             out += leangen.render(fn, p, l, r, rt) + "\n"
         except Exception as e:
             errors[fn] = "%s: %s" % (type(e).__name__, e)
